@@ -76,6 +76,10 @@ def random_coord(rnd, sz):
     return [rnd.choice([0, s - 1, s // 2, rnd.randrange(s), (1 << (s - 1).bit_length()) // 2 if s > 1 else 0]) % s for s in sz]
 
 
+OPTIONAL_CFGS = ("clang",)
+SKIPPED = []     # (translation unit, configuration, first diagnostic) left out of this run
+
+
 def build(ctx, cfgs, what=("layout",), rw_variants=None):
     """compile the harness TUs from /repo's working tree; returns dict (name, cfg) -> exe"""
     jobs, keys = [], []
@@ -92,6 +96,11 @@ def build(ctx, cfgs, what=("layout",), rw_variants=None):
     exes = {}
     for k, j, (rc, err) in zip(keys, jobs, res):
         if rc != 0:
+            if j[2] in OPTIONAL_CFGS and any(r[0] == 0 for kk, jj, r in zip(keys, jobs, res) if jj[0] == j[0] and jj[2] not in OPTIONAL_CFGS):
+                # the auxiliary compiler (clang 14 cannot parse all of the library as it is) rejects what g++ accepts: that
+                # configuration is left out of this run, it is not a statement about the property
+                SKIPPED.append((str(j[0].name), j[2], C.first_diag(err)))
+                continue
             raise C.CompileError(j[0], j[2], err)
         exes[k] = j[1]
     return exes
